@@ -25,7 +25,14 @@ Oracle pitfalls met while building this (the library is right, a naive oracle is
     h / altitude^2; the step is therefore scaled by the largest basis-function attribute, otherwise the FD
     truncation error of sqrt/log terms on small cells exceeds 1e-6.
   * the log-determinant energy needs det(I + grad u) > 0: linearisation points are rescaled so that
-    max|grad u| <= 0.3 (flag `small`), reciprocal terms need u >= 1 (flag `positive`).
+    max|grad u| <= 0.3 (flag `small`); reciprocal terms need u >= 1 *at the quadrature points* (flag `positive`):
+    DOFs of hierarchical / bubble bases are not nodal values, so the point is checked after interpolation.
+  * homogeneous integrands of degree >= 2 have J(0) = 0 exactly; max|J_fd| is then rounding noise (1e-22) and is
+    no scale: the FD comparison carries the rounding floor 1e-11 max|F| / h as absolute term.
+  * `COOData.tolocal()[c, j, i]` is (test i, trial j) for every form of the library (BilinearForm too).
+  * with the 3x3 determinant defect present, every reference for a 3-D integrand that uses `det` disagrees; such
+    witnesses are classified by recomputing the reference with a model of the defect (det - 2 A01 A12 A20) and
+    demanding agreement with *that* to 1e-9 / 1e-6 - anything else stays an unclassified violation.
 """
 from __future__ import annotations
 
@@ -494,7 +501,7 @@ def nbfun(rec):
     return _NB[rec.name]
 
 
-def choose(ctx, k, layout_list, cap, kinds_ok=None):
+def choose(ctx, k, layout_list, cap, kinds_ok=None, pred=None):
     """Deterministic rotation over (layout, cell kind, element) restricted to local sizes <= cap."""
     L = lay()
     order = ("tri", "tet", "quad", "hex", "line", "wedge")
@@ -505,7 +512,7 @@ def choose(ctx, k, layout_list, cap, kinds_ok=None):
             if kinds_ok and kind not in kinds_ok:
                 continue
             for i, rec in enumerate(L[layout][kind]):
-                if nbfun(rec) <= cap:
+                if nbfun(rec) <= cap and (pred is None or pred(rec)):
                     lst.append((i, order.index(kind), layout, kind, rec))
         lst.sort(key=lambda c: c[:2])
         per_layout.append([c[2:] for c in lst])
@@ -523,7 +530,7 @@ def fam_residual(layout_group, poolname):
     """Residual-form problems for the layouts in `layout_group`."""
     def fn(ctx, k):
         rng = ctx.rng()
-        layout, kind, rec = choose(ctx, k, layout_group, ctx.scale(19, 40))
+        layout, kind, rec = choose(ctx, k, layout_group, ctx.scale(19, 31))
         nb_guess = {"line": 6, "tri": 10, "quad": 8, "tet": 6, "hex": 3, "wedge": 4}[kind]
         maxcells = ctx.scale(nb_guess, 3 * nb_guess)
         mc, mesh, basis = make_basis(ctx, rng, kind, rec, maxcells, order2=(k % 5 == 4), subset=(k % 7 == 3),
@@ -560,9 +567,8 @@ def fam_energy(ctx, k):
 
 def fam_facet(ctx, k):
     rng = ctx.rng()
-    layout, kind, rec = choose(ctx, k, ["scalar", "vector"], ctx.scale(12, 30), kinds_ok=("tri", "quad", "tet", "hex"))
-    if not rec.facet_basis or "DG" in rec.name:
-        raise Skip("element-without-facet-basis")
+    layout, kind, rec = choose(ctx, k, ["scalar", "vector"], ctx.scale(12, 30), kinds_ok=("tri", "quad", "tet", "hex"),
+                               pred=lambda r: r.facet_basis and "DG" not in r.name)
     facet = "interior" if k % 3 == 2 else "boundary"
     mc, mesh, basis = make_basis(ctx, rng, kind, rec, ctx.scale(6, 16), facet=facet)
     if basis.nelems == 0:
@@ -666,25 +672,25 @@ def fam_directed(ctx, k):
 
 
 # ===================================================================== Part B: helpers
-from .c20_helpers import fam_helpers_np, fam_helpers_jax, fam_helpers_fields, fam_helper_exports, fam_known  # noqa: E402
+from .c20_helpers import fam_helpers_np, fam_helpers_jax, fam_helpers_fields, fam_helper_exports, fam_edge  # noqa: E402
 
 SCALAR_GROUP = ["scalar"]
 VECTOR_GROUP = ["vector"]
 COMPOSITE_GROUP = ["vector+scalar", "scalar+scalar", "hdiv+p0", "hcurl+scalar", "scalar+scalar+scalar"]
 
 FAMILIES = [
-    Family("nl-scalar", fam_residual(SCALAR_GROUP, "scalar"), quick=14, thorough=336, budget={"quick": 40, "thorough": 500}),
-    Family("nl-vector", fam_residual(VECTOR_GROUP, "vector"), quick=9, thorough=216, budget={"quick": 40, "thorough": 500}),
-    Family("nl-composite", fam_residual(COMPOSITE_GROUP, "composite"), quick=10, thorough=240,
+    Family("nl-scalar", fam_residual(SCALAR_GROUP, "scalar"), quick=14, thorough=240, budget={"quick": 40, "thorough": 500}),
+    Family("nl-vector", fam_residual(VECTOR_GROUP, "vector"), quick=9, thorough=144, budget={"quick": 40, "thorough": 500}),
+    Family("nl-composite", fam_residual(COMPOSITE_GROUP, "composite"), quick=10, thorough=160,
            budget={"quick": 40, "thorough": 500}),
-    Family("nl-hess", fam_residual(["hess"], "hess"), quick=2, thorough=48, budget={"quick": 20, "thorough": 400}),
-    Family("nl-energy", fam_energy, quick=8, thorough=192, budget={"quick": 30, "thorough": 500}),
-    Family("nl-facet", fam_facet, quick=6, thorough=144, budget={"quick": 20, "thorough": 400}),
-    Family("nl-linear", fam_linear, quick=8, thorough=192, budget={"quick": 20, "thorough": 400}),
-    Family("nl-directed", fam_directed, quick=4, thorough=96, budget={"quick": 15, "thorough": 300}),
+    Family("nl-hess", fam_residual(["hess"], "hess"), quick=2, thorough=32, budget={"quick": 20, "thorough": 400}),
+    Family("nl-energy", fam_energy, quick=8, thorough=128, budget={"quick": 30, "thorough": 500}),
+    Family("nl-facet", fam_facet, quick=6, thorough=96, budget={"quick": 20, "thorough": 400}),
+    Family("nl-linear", fam_linear, quick=8, thorough=128, budget={"quick": 20, "thorough": 400}),
+    Family("nl-directed", fam_directed, quick=4, thorough=64, budget={"quick": 15, "thorough": 300}),
     Family("helpers-np", fam_helpers_np, quick=16, thorough=960, budget={"quick": 15, "thorough": 200}),
     Family("helpers-jax", fam_helpers_jax, quick=16, thorough=960, budget={"quick": 25, "thorough": 300}),
     Family("helpers-fields", fam_helpers_fields, quick=12, thorough=384, budget={"quick": 15, "thorough": 200}),
     Family("helper-exports", fam_helper_exports, quick=1, thorough=1),
-    Family("known-defects", fam_known, quick=4, thorough=16, budget={"quick": 15, "thorough": 60}),
+    Family("helpers-edge", fam_edge, quick=4, thorough=16, budget={"quick": 15, "thorough": 60}),
 ]
